@@ -19,6 +19,7 @@ CONSTANTS MaxSteps,     \* commands per history
           Level,        \* "core" | "quick" | "full": which parameter shapes are in the alphabet;
                         \* "multi": sessions with several live streams (open, stream, stream, then window changes /
                         \*          stops / searches / lookups on every handle) - ids are renewed on older streams;
+                        \* "numeric": open, stream, then two commands whose numeric parameters / ids take the extreme classes;
                         \* "onepass": every collect mode (all / none / one_pass_streams) x pause / resume x streams and
                         \*          queries with and without the one_pass flag - streams created after messages were released
           RecordHist    \* TRUE only in the emission configs (the history multiplies the state space)
@@ -61,6 +62,18 @@ MultiAlphabet ==
   \cup {Cmd("stream_search", "ok", t) : t \in HandleTargets} \cup {Cmd("stream_binary_search", "time", t) : t \in HandleTargets}
 \* shape of a "multi" history: open, two streams, then no further open
 MultiShape(c) == /\ (nsent = 0 => c.verb = "open") /\ (nsent \in {1, 2} => c.verb = "stream") /\ (nsent > 2 => c.verb # "open")
+NumTargets == {"n:" \o a : a \in NumClasses}
+WinPairs == {<<a, "len">> : a \in NumClasses} \cup {<<"0", a>> : a \in NumClasses} \cup {<<a, a>> : a \in NumClasses}
+            \cup {<<"lenp1", "3">>, <<"u64max", "0">>}
+NWin(p) == "nwin:" \o p[1] \o ":" \o p[2]
+NumericAlphabet ==
+       {Cmd("open", "ok", ""), Cmd("stream", "ok_filt", "")}
+  \cup {Cmd(v, NWin(p), "") : v \in {"stream", "query"}, p \in WinPairs}
+  \cup {Cmd("stream_change_window", NWin(p), t) : p \in WinPairs, t \in HandleTargets}
+  \cup {Cmd("stream_search", a, t) : a \in (NStartArgs \cup NMaxArgs), t \in HandleTargets}
+  \cup {Cmd("stream_binary_search", a, t) : a \in (NTimeArgs \cup NIndexArgs), t \in HandleTargets}
+  \cup {Cmd(v, a, t) : <<v, a>> \in {<<"stop", "">>, <<"stream_change_window", "ok">>, <<"stream_search", "ok">>}, t \in NumTargets}
+NumericShape(c) == /\ ((nsent = 0) = (c.verb = "open")) /\ (nsent = 1 => c = Cmd("stream", "ok_filt", ""))
 OnePassAlphabet ==
        {Cmd("open", a, "") : a \in {"ok", "ok_nocollect", "ok_onepass"}}
   \cup {Cmd(v, "", "") : v \in {"pause", "resume"}}
@@ -79,7 +92,8 @@ FullAlphabet ==
   \cup {Cmd("fs", a, "") : a \in AFs}
   \cup {Cmd("unknown", a, "") : a \in AUnknown}
 Alphabet == IF Level = "multi" THEN {c \in MultiAlphabet : MultiShape(c)}
-            ELSE IF Level = "onepass" THEN {c \in OnePassAlphabet : OnePassShape(c)} ELSE FullAlphabet
+            ELSE IF Level = "onepass" THEN {c \in OnePassAlphabet : OnePassShape(c)}
+            ELSE IF Level = "numeric" THEN {c \in NumericAlphabet : NumericShape(c)} ELSE FullAlphabet
 
 Init == /\ file = "none" /\ plug = FALSE /\ res = FALSE /\ hs = <<>> /\ pend = <<>> /\ nsent = 0 /\ parsing = "none" /\ hist = <<>>
 
@@ -89,11 +103,14 @@ Send(c) == /\ nsent < MaxSteps /\ Len(pend) < Depth
            /\ pend' = Append(pend, c) /\ nsent' = nsent + 1
            /\ UNCHANGED <<file, plug, res, hs, parsing, hist>>
 
+NumClassOf(t) == CHOOSE a \in NumClasses : t = "n:" \o a
 Tk(c) == IF c.verb \notin TargetVerbs THEN "none"
-         ELSE IF c.tgt \in {"none", "nonnum"} THEN c.tgt ELSE "id"
+         ELSE IF c.tgt \in {"none", "nonnum"} THEN c.tgt
+         ELSE IF c.tgt \in NumTargets THEN (IF NumClassOf(c.tgt) \in NumU32 THEN "id" ELSE "nonnum") ELSE "id"
 \* polarities allowed for c: the table evaluated for every liveness the addressed handle may have
 LiveOptions(c) == LET h == HOf(c.tgt) IN
-                  IF h = 0 \/ h > Len(hs) THEN {FALSE}
+                  IF c.tgt \in NumTargets /\ NumClassOf(c.tgt) \in (NumU32 \ {"u32max"}) THEN {TRUE, FALSE}   \* a small number may be a live id
+                  ELSE IF h = 0 \/ h > Len(hs) THEN {FALSE}
                   ELSE IF hs[h].st = "live" THEN {TRUE} ELSE IF hs[h].st = "dead" THEN {FALSE} ELSE {TRUE, FALSE}
 TOp(c) == LET h == HOf(c.tgt) IN IF h = 0 \/ h > Len(hs) THEN FALSE ELSE hs[h].op
 Allowed(c) == UNION {Pol(c.verb, c.arg, Tk(c), file, plug, res, lv, TOp(c)) : lv \in LiveOptions(c)}
